@@ -16,6 +16,8 @@ def well_formed(r):
             return False
         if op.get("ctor") in ("NewNxARPSpaMatchField", "NewNxARPTpaMatchField", "NewActsetOutputField"):
             return False
+        if op.get("ctor") == "NewMatchFieldU64" and op["args"][0] in ("NXM_NX_TUN_ID",):     # registered, but without a decoder
+            return False
     return True
 
 
